@@ -208,12 +208,12 @@ func countMatches(pat, text string) int {
 func (g *gen) candidate() string {
 	t := g.t
 	neg := ""
-	kinds := []string{"exists", "exists", "grep", "grepcount", "cmp", "cp", "mkdir", "rm", "mv", "cd", "env", "chmod", "symlink", "unquote", "unix2dos", "stdin", "cmpenv", "usage", "unknown", "cond", "comment", "blank", "stop", "skip"}
+	kinds := []string{"exists", "exists", "grep", "grepcount", "cmp", "cp", "mkdir", "rm", "mv", "cd", "env", "chmod", "symlink", "unquote", "unix2dos", "stdin", "cmpenv", "usage", "unknown", "cond", "comment", "blank", "stop", "skip", "phaseskip"}
 	if g.o.Exec {
 		kinds = append(kinds, "exec", "exec", "exec", "stdout", "stdout", "stderr", "helpercmd")
 	}
 	if g.o.Exec && g.o.Background {
-		kinds = append(kinds, "bg", "bg", "wait", "kill", "bgwait", "bgwait", "bgmix", "bgend")
+		kinds = append(kinds, "bg", "bg", "wait", "kill", "bgwait", "bgwait", "bgmix", "bgend", "bgmany", "bgmany")
 	}
 	if g.p.CustomCmds {
 		kinds = append(kinds, "probe", "probe", "probe", "failcmd", "cemit", "setenv", "defer", "getenv")
@@ -489,6 +489,30 @@ func (g *gen) candidate() string {
 			w = "wait"
 		}
 		return neg + "exec vmain emit -o bg\\n -x " + code + " &" + name + "&\n" + w
+	case "bgmany":
+		// several short-lived background commands with drawn exit statuses and demands, then the unnamed wait:
+		// the first command that violates its demand decides, wherever it stands in the list
+		var ls []string
+		for i, n := 0, rapid.IntRange(2, 4).Draw(t, "nmany"); i < n; i++ {
+			g.nbg++
+			spec := "&"
+			if rapid.IntRange(0, 2).Draw(t, "manynamed") == 1 {
+				spec = fmt.Sprintf("&y%d&", g.nbg)
+			}
+			ng := ""
+			if rapid.IntRange(0, 2).Draw(t, "manyneg") == 1 {
+				ng = "! "
+			}
+			ls = append(ls, fmt.Sprintf("%sexec vmain emit -o out%d\\n -x %s %s", ng, g.nbg, rapid.SampledFrom([]string{"0", "0", "1", "2"}).Draw(t, "manycode"), spec))
+		}
+		return strings.Join(ls, "\n") + "\n" + "wait"
+	case "phaseskip":
+		// a new phase (comment line) and then skip: after an earlier failure under ContinueOnError the run must
+		// still be reported as failed
+		if !g.m.Failed() {
+			return g.simple()
+		}
+		return rapid.SampledFrom([]string{"# next phase", "#", "# cleanup"}).Draw(t, "phasecmt") + "\n" + g.simple() + "\n" + rapid.SampledFrom([]string{"skip", "skip 'rest not applicable'"}).Draw(t, "phaseskip")
 	case "wait":
 		names, _ := g.m.BlockedBackground()
 		if len(names) > 0 {
